@@ -298,9 +298,33 @@ fn mpqs_modulus(n0: &Uint, use_mult: bool, npolys: usize) -> Tally {
             polybase -= std::cmp::min(polybase / 10, polystride);
         }
         let drs = mpqs::sieve_for_polys(&n, polybase, polystride as usize);
+        let mut drs: Vec<(u128, Uint)> = drs.into_iter().take(npolys).collect();
+        // D is only required to pass a pseudo-square-root test, so composite D without factors
+        // below 200 are accepted by design: every product of two primes in (200, 620) that is
+        // 3 mod 4 with D^2 < n is offered to the real selection test (width-1 window)
+        {
+            let ps: Vec<u64> = rm::primes_below(620).into_iter().filter(|&p| p > 200).collect();
+            let mut accepted = 0;
+            'comp: for (i, &p) in ps.iter().enumerate() {
+                for &q in &ps[i + 1..] {
+                    let d = (p * q) as u128;
+                    if d % 4 != 3 || rm::W::from_digit((d * d) as u64) >= rm::w_from(&n) >> 2u32 {
+                        continue;
+                    }
+                    let got = mpqs::sieve_for_polys(&n, d, 1);
+                    if !got.is_empty() {
+                        drs.extend(got);
+                        accepted += 1;
+                        if accepted >= 24 {
+                            break 'comp;
+                        }
+                    }
+                }
+            }
+        }
         let start = -(mm / 2);
         let nw = rm::w_from(&n);
-        for (d, r) in drs.into_iter().take(npolys) {
+        for (d, r) in drs.into_iter() {
             t.polys += 1;
             let pol = mpqs::make_poly(&n, d, &r);
             let ctxs = || format!("mpqs n={} k={} D={}", n0, k, d);
